@@ -92,19 +92,62 @@ func H_C13_Handoff() {
 	vCover("c13.handoff")
 }
 
-// C13 handlers: every queued message kind, decoded from attacker bytes into an arbitrary struct, is
-// processed by the real packet handler goroutine without panicking and the queues drain.
+// vWellFormedHostile builds a syntactically valid message of the given kind whose every field is arbitrary
+// (lengths case-split, contents symbolic) and encodes it with the real encoder, so that the very same
+// bytes reach the real decoder in a native replay.
+func vWellFormedHostile(kind messageType) []byte {
+	names := []string{"", vSelf, vPeerA, vPeerB}
+	name := func() string { return names[vPick(len(names))] }
+	blob := func(lens ...int) []byte {
+		n := lens[vPick(len(lens))]
+		if n == 0 {
+			return nil
+		}
+		return vBytes(n)
+	}
+	var in interface{}
+	switch kind {
+	case pingMsg:
+		in = &ping{SeqNo: vU32(), Node: name(), SourceAddr: blob(0, 4, 5), SourcePort: vU16(), SourceNode: name()}
+	case indirectPingMsg:
+		in = &indirectPingReq{SeqNo: vU32(), Target: blob(0, 4, 5), Port: vU16(), Node: name(), Nack: vBool(), SourceAddr: blob(0, 4), SourcePort: vU16(), SourceNode: name()}
+	case ackRespMsg:
+		in = &ackResp{SeqNo: vU32(), Payload: blob(0, 2)}
+	case nackRespMsg:
+		in = &nackResp{SeqNo: vU32()}
+	case suspectMsg:
+		in = &suspect{Incarnation: vU32(), Node: name(), From: name()}
+	case deadMsg:
+		in = &dead{Incarnation: vU32(), Node: name(), From: name()}
+	case aliveMsg:
+		in = &alive{Incarnation: vU32(), Node: name(), Addr: blob(0, 4, 5, 16), Port: vU16(), Meta: blob(0, 1), Vsn: blob(0, 2, 3, 5, 6, 7)}
+	default:
+		return append([]byte{byte(kind)}, vBytes(2)...)
+	}
+	buf, err := encode(kind, in, false)
+	vAssert(err == nil, "c13.hdl.encode")
+	return buf.Bytes()
+}
+
+// C13 handlers: every message kind with arbitrary field contents and odd field lengths is processed by the real
+// packet listener + packet handler goroutine without panicking, and the queues drain.
 func H_C13_Handlers() {
-	vOpt("hostile-budget", 1)
 	conf := vBaseConfig()
+	if vPick(2) == 1 {
+		conf.Alive = &vAliveRec{}
+	}
 	f := vNewML(conf)
 	f.del = &vDelegateRec{}
 	conf.Delegate = f.del
 	f.vAddSelf(3, nil)
+	if vPick(2) == 1 {
+		f.vAddConcreteAlive(vPeerA, 2)
+	}
 	kind := []messageType{suspectMsg, aliveMsg, deadMsg, userMsg, pingMsg, indirectPingMsg, ackRespMsg, nackRespMsg}[vPick(8)]
-	pkt := append([]byte{byte(kind)}, vBytes(2)...)
+	pkt := vWellFormedHostile(kind)
 	f.m.ingestPacket(pkt, vAddr("10.0.0.9:1"), time.Time{})
 	f.vDrain()
+	vAdvance(time.Second)
 	vAssert(f.m.highPriorityMsgQueue.Len() == 0 && f.m.lowPriorityMsgQueue.Len() == 0, "c13.hdl.drained")
 	vAssert(f.vIsMember(vSelf), "c13.hdl.self-still-listed")
 	vCover("c13.hdl.survived")
@@ -208,8 +251,9 @@ func H_C14_Packet() {
 			c.ProtocolVersion = 1
 		}
 	}
-	// receiver keyring variants: same key only / extra key first / genuine key removed (foreign key only)
-	kv := vPick(3)
+	// receiver keyring variants: same key only / extra key first / foreign key only /
+	// genuine key retired from a three-key ring by RemoveKey (kv 2 and 3 must drop the traffic)
+	kv := vPick(4)
 	other := vBytes(16)
 	vAssume(!vEqBytes(other, key))
 	switch kv {
@@ -217,6 +261,12 @@ func H_C14_Packet() {
 		cb.Keyring, _ = NewKeyring([][]byte{key}, other)
 	case 2:
 		cb.Keyring, _ = NewKeyring(nil, other)
+	case 3:
+		third := vBytes(16)
+		vAssume(!vEqBytes(third, key) && !vEqBytes(third, other))
+		cb.Keyring, _ = NewKeyring([][]byte{key, third}, other)
+		vAssert(cb.Keyring.RemoveKey(key) == nil, "c14.pkt.retire-key")
+		kv = 2
 	}
 	fa, fb := vNewML(ca), vNewML(cb)
 	fb.vAddSelfNamed(vPeerA)
